@@ -966,6 +966,11 @@ func (h *H) runLink() {
 		return
 	}
 	// a peer that finds its port taken (runs beside the other scenarios: its time is waiting)
+	if os.Getenv("XV_ONLY") == "oversize" {
+		h.oversizeFrames()
+		return
+	}
+	h.oversizeFrames()
 	acceptCh := make(chan acceptResult, 1)
 	go func() {
 		fails := 3
